@@ -467,12 +467,12 @@ def tasks(tier):
         out.append(task(MOD, 'ob_stubs', P_STUB, label=f'lib/stubs/w{w}', w=w))
         out.append(task(MOD, 'ob_write_bool', ('C17', 'C04', 'C03'), label=f'lib/write_bool/w{w}', w=w))
         for which in ('string', 'const', 'state'):
-            out.append(task(MOD, 'ob_write_seq', ('C17', 'C04', 'C03'), label=f'lib/write_seq/{which}/w{w}', w=w, which=which))
+            out.append(task(MOD, 'ob_write_seq', ('C17', 'C04', 'C03', 'C13'), label=f'lib/write_seq/{which}/w{w}', w=w, which=which))          # C13: writing a constant prints exactly its bytes
         out.append(task(MOD, 'ob_write_int', ('C17', 'C04', 'C03'), label=f'lib/write_int/w{w}', w=w, cost=5 * w))
     if tier == 'quick':
         for w in (3, 8):
             out.append(task(MOD, 'ob_write_int', ('C17', 'C04', 'C03', 'C01'), label=f'lib/write_int/w{w}', w=w, cost=5 * w))
-            out.append(task(MOD, 'ob_write_seq', ('C17', 'C04', 'C03', 'C01'), label=f'lib/write_seq/string/w{w}', w=w, which='string'))
+            out.append(task(MOD, 'ob_write_seq', ('C17', 'C04', 'C03', 'C01', 'C13'), label=f'lib/write_seq/string/w{w}', w=w, which='string'))
             out.append(task(MOD, 'ob_write_bool', ('C17', 'C04', 'C03', 'C01'), label=f'lib/write_bool/w{w}', w=w))
     if tier == 'thorough':
         out.append(task(MOD, 'ob_write_int_exhaustive16', ('C17',), label='lib/write_int/exhaustive16', cost=50))
